@@ -249,7 +249,14 @@ def _lists(ctx: Ctx, item):
     def msgs(draw):
         n = draw(st.integers(1, 20))
         pgn = draw(st.sampled_from(fp.PROP_PGNS))
-        return pgn, [draw(lens.flatmap(lambda L: fp.payload(pgn, L, L))) for _ in range(n)]
+        mixed = draw(st.booleans())
+        out = []
+        for _ in range(n):
+            # one sender's encoder serves several streams: its counter is shared, so two messages of ONE stream may carry the
+            # same counter when 8k-1 messages of other streams lie in between
+            p_ = draw(st.sampled_from(fp.PROP_PGNS)) if mixed else pgn
+            out.append((p_, draw(st.sampled_from([7, 7, 8])) if mixed else 7, draw(lens.flatmap(lambda L, p_=p_: fp.payload(p_, L, L)))))
+        return pgn, out
 
     def check(pm, fmt, hist, warp):
         pgn, payloads = pm
@@ -263,14 +270,14 @@ def _lists(ctx: Ctx, item):
         out = []
         ctx.count()
         if len(payloads) > 8:
-            ctx.nt((pgn, tuple(payloads), fmt))
+            ctx.nt((pgn, tuple(map(str, payloads)), fmt))
             ctx.klass("list_with_wrap")
         else:
             ctx.klass("list_short")
-        for i, p in enumerate(payloads):
-            res, prev = one_message(ctx, enc, holder, dec, fmt, pgn, p, prev, warp=warp)
+        for i, (p_, src_, p) in enumerate(payloads):
+            res, prev = one_message(ctx, enc, holder, dec, fmt, p_, p, prev, src=src_, warp=warp)
             for b, w, c in res:
-                c = dict(c, list_hex=[x.hex() for x in payloads], index=i, history=hist, warp=warp)
+                c = dict(c, list_hex=[[a, b_, x.hex()] for a, b_, x in payloads], index=i, history=hist, warp=warp)
                 out.append((b + "|list", w, c))
         return out
 
@@ -306,7 +313,7 @@ def replay(ctx: Ctx, case):
         _defs(sub, ([d.key], 1))
         return holder.get("out", [])
     fmt = case["format"]
-    payloads = [bytes.fromhex(x) for x in case["list_hex"]] if "list_hex" in case else None
+    payloads = [(x[0], x[1], bytes.fromhex(x[2])) if isinstance(x, list) else (case["pgn"], 7, bytes.fromhex(x)) for x in case["list_hex"]] if "list_hex" in case else None
     holder = {}
     enc = fp.stub_encoder(NMEA2000Encoder(), holder)
     dec = NMEA2000Decoder()
@@ -321,7 +328,7 @@ def replay(ctx: Ctx, case):
         res, _ = one_message(ctx, enc, holder, dec, fmt, pgn, bytes.fromhex(case["payload_hex"]), prev)
         return res
     preload(dec, case.get("history", 0))
-    for p in payloads:
-        res, prev = one_message(ctx, enc, holder, dec, fmt, pgn, p, prev, warp=case.get("warp", 0))
+    for p_, src_, p in payloads:
+        res, prev = one_message(ctx, enc, holder, dec, fmt, p_, p, prev, src=src_, warp=case.get("warp", 0))
         out += [(b + "|list", w, c) for b, w, c in res]
     return out
